@@ -118,4 +118,6 @@ def scen_key(s):
         key += '|kind=%s' % s['req']['kind']
     if inj.get('res', 'plain') not in ('plain', 'gen'):
         key += '|res=%s' % inj['res']
+    if inj.get('fin', 'ok') == 'rewrite':
+        key += '|fin=rewrite'
     return key
